@@ -339,7 +339,7 @@ theorem sendFragsizeProbe_ok {L : Nat} {td : List Nat} (E : Env L td) (c : Cli) 
   simp only
   rw [htd, hml]
   have hn := chunkName_ok E c.dataenc
-    [114, b32_5to8 (c.userid * 2 + ((f % 2048 / 1024 % 2 : Nat) : Int)), b32_5to8 ((f % 2048 / 32 % 32 : Nat) : Int),
+    [114, b32_5to8 ((maskI c.userid 16 * 2 + f % 2048 / 1024 % 2 : Nat) : Int), b32_5to8 ((f % 2048 / 32 % 32 : Nat) : Int),
       b32_5to8 ((f % 2048 % 32 : Nat) : Int), 100]
     (max 1 (c.randSeed % 256) :: max 1 (c.randSeed / 256 % 256) :: List.replicate 254 (max 1 (c.randSeed % 256))) rfl
     (by
